@@ -177,6 +177,29 @@ Theorem C09_not_is_complement_from_text : forall parse_float regex_match root i 
   (In m (nav1f parse_float regex_match root (FN i) lv) <-> ~ In m (nav1f parse_float regex_match root (FE i) lv)).
 Proof. exact not_is_complement. Qed.
 Print Assumptions C09_not_is_complement_from_text.
+(* the same for arbitrary sub-queries, parenthesised or not (QueryTree.v: `FT t`, t a tree of `&&`, `||` and parentheses over
+   basic queries) *)
+From JP Require Import QueryTree.
+Theorem C09_subquery_or_is_union_from_text : forall parse_float regex_match root l r lv m,
+  In m (nav1f parse_float regex_match root (FT (TO l r)) lv) <->
+  In m (nav1f parse_float regex_match root (FT l) lv) \/ In m (nav1f parse_float regex_match root (FT r) lv).
+Proof. exact tree_or_is_union. Qed.
+Print Assumptions C09_subquery_or_is_union_from_text.
+Theorem C09_subquery_and_is_intersection_from_text : forall parse_float regex_match root l r lv m,
+  In m (nav1f parse_float regex_match root (FT (TA l r)) lv) <->
+  In m (nav1f parse_float regex_match root (FT l) lv) /\ In m (nav1f parse_float regex_match root (FT r) lv).
+Proof. exact tree_and_is_intersection. Qed.
+Print Assumptions C09_subquery_and_is_intersection_from_text.
+Theorem C09_parentheses_from_text : forall parse_float regex_match root lv,
+  (forall t, nav1f parse_float regex_match root (FT (TP t)) lv = nav1f parse_float regex_match root (FT t) lv) /\
+  (forall a b c, nav1f parse_float regex_match root (FT (TA (TP (TO a b)) c)) lv = nav1f parse_float regex_match root (FT (TO (TA a c) (TA b c))) lv) /\
+  (forall b bs cs, nav1f parse_float regex_match root (FQ ((b :: bs) :: map (fun c : bq * list bq => fst c :: snd c) cs)) lv =
+                   nav1f parse_float regex_match root (FT (dnf_tree b bs cs)) lv).
+Proof.
+  intros pf rm root lv. split; [intros t; apply parentheses_only_group|]. split; [intros a b c; apply and_distributes_over_or|].
+  intros b bs cs. apply dnf_is_the_flat_tree.
+Qed.
+Print Assumptions C09_parentheses_from_text.
 Theorem C09_negated_basic_queries_from_text : forall parse_float regex_match root vals v,
   (forall i, bq_test parse_float regex_match root vals (BN i) v = negb (bq_test parse_float regex_match root vals (BE i) v)) /\
   (forall j, bq_test parse_float regex_match root vals (BRN j) v = negb (bq_test parse_float regex_match root vals (BRE j) v)) /\
